@@ -142,6 +142,12 @@ impl Request {
             return Err(Request::_ERROR_REQUEST_URI_IS_NOT_IN_ORIGIN_FORM.to_string())
         }
 
+        // a request uri that starts a query or a fragment has no path; glued to the placeholder host below, the
+        // text up to its first slash would be read as a part of the authority ('?a:b/c' as host 'localhost?a', port 'b')
+        if !self.request_uri.starts_with(SYMBOL.slash) {
+            return Ok(SYMBOL.empty_string.to_string())
+        }
+
         // scheme and host required for the parse_url function
         let url_array = ["http://", "localhost", &self.request_uri];
         let url = url_array.join(SYMBOL.empty_string);
